@@ -31,7 +31,29 @@ def install(I):
 
     reg("len", b_len)
 
+    def concretize(x):
+        """a symbolic int that the path condition pins to a single value is read as that value"""
+        if not isinstance(x, SInt):
+            return x
+        c = ctx()
+        s = z3.Solver()
+        s.set("timeout", 3000)
+        for h in c.hyps():
+            s.add(h)
+        if s.check() != z3.sat:
+            return x
+        v = s.model().eval(x.t, model_completion=True)
+        if not z3.is_int_value(v):
+            return x
+        s.add(x.t != v)
+        if s.check() == z3.unsat:
+            return v.as_long()
+        return x
+
+    I.concretize = concretize
+
     def b_range(I, a, k):
+        a = [concretize(x) for x in a]
         if all(isinstance(x, (int, bool)) or (isinstance(x, XR) and x.is_const()) for x in a):
             return list(range(*[I.conc_int(x) for x in a]))
         a2 = [I.conc_or_sym_int(x) for x in a]
